@@ -16,8 +16,9 @@ def main():
     programs, meta = [], {"families": {}}
     for b in BACKENDS:
         ps, m = gen.c01_programs(b, a.tier, a.seed)
-        if a.tier == "quick":
-            ps = ps[::2]
+        ps += gen.c04_programs(b, a.tier) + [p for p in gen.c03_programs(b, a.tier) if "must_raise" not in p.tags]
+        if b == "atlas" or a.tier == "thorough":
+            ps += gen.c13_programs(b, a.tier)
         ps += [gen.make_program(q, b) for q in gen.c02_extra(b)]
         meta["families"][b] = dict(m, programs=len(ps))
         programs += ps
